@@ -192,7 +192,7 @@ func tail(s string, n int) string {
 
 var _ = pbt.Register(pbt.Spec[Model]{
 	Property: "C15", Name: "schemagen",
-	Rule:  "program = a drawn schema (1-3 enums, 3-10 top-level structs with 1-9 fields each over every data type, text, data, struct, list of every element type incl. nested lists, AnyPointer, capabilities of 0-2 method-less interfaces, groups nested up to depth 2, unions at struct and group level whose members share storage (a third of the unions consist mostly of pointer members - structs with and without defaults, interfaces - sharing pointer slots), defaults on a third of the fields incl. boundary bit patterns, text/data/struct pointer defaults), with offsets assigned by the model rather than by the compiler's packing (holes, scattered and overlapping union members, slack words); it is serialised as a CodeGeneratorRequest, run through capnpc-go built from the working tree three times (byte-identical output required), compiled together with an emitted test that calls every accessor the schema implies. Per field ~20 random backgrounds/values are compared bit-for-bit with the layout oracle; pointer setters are also given null values (the member is selected, the slot stays null); the _Future accessor of every struct field must yield the stored struct or exactly that field's default. Non-trivial: the schema has a union, a group and a defaulted field.",
+	Rule:  "program = a drawn schema (1-3 enums, 3-10 top-level structs with 1-9 fields each over every data type, text, data, struct, list of every element type incl. nested lists, AnyPointer, capabilities of 0-2 method-less interfaces, groups nested up to depth 2, unions at struct and group level whose members share storage (a third of the unions consist mostly of pointer members - structs with and without defaults, interfaces - sharing pointer slots), defaults on a third of the fields incl. boundary bit patterns, text/data/struct pointer defaults, $Go.name annotations on some fields, enumerants and top-level structs), with offsets assigned by the model rather than by the compiler's packing (holes, scattered and overlapping union members, slack words); it is serialised as a CodeGeneratorRequest, run through capnpc-go built from the working tree three times (byte-identical output required), compiled together with an emitted test that calls every accessor the schema implies. Per field ~20 random backgrounds/values are compared bit-for-bit with the layout oracle; pointer setters are also given null values (the member is selected, the slot stays null); the _Future accessor of every struct field must yield the stored struct or exactly that field's default. Non-trivial: the schema has a union, a group and a defaulted field.",
 	Quick: 4, Thorough: 12,
 	Gen:       GenModel,
 	Run:       run,
